@@ -29,9 +29,11 @@ type c16Case struct {
 	Filter string    `json:"filter_re,omitempty"`
 	// FS: the dump references a generated file-system layout (seed, index) that pp sees through GOROOT/GOPATH,
 	// so that local paths, relative paths and every location class (colours) are exercised.
-	FS     bool  `json:"fs,omitempty"`
-	FSSeed int64 `json:"fs_seed,omitempty"`
-	FSIdx  int   `json:"fs_idx,omitempty"`
+	// Raw: real crash output of the repository's cmd/panic (the dump part of it).
+	Raw    []byte `json:"raw,omitempty"`
+	FS     bool   `json:"fs,omitempty"`
+	FSSeed int64  `json:"fs_seed,omitempty"`
+	FSIdx  int    `json:"fs_idx,omitempty"`
 }
 
 // expected block, computed from the library's snapshot by the rules the property states.
@@ -95,6 +97,9 @@ func expFrames(st *stack.Stack, pathMode string) []expFrame {
 }
 
 func (c *c16Case) input() []byte {
+	if c.Raw != nil {
+		return c.Raw
+	}
 	if c.Race != nil {
 		return c.Race.Render()
 	}
@@ -348,6 +353,28 @@ func runC16(r *core.Run) {
 	r.Rule("generated dumps and race reports (non-ASCII package and file names, 1..40 buckets, elided stacks, sleep ranges, locks, creators) rendered by the real pp binary under {base, -full-path, -rel-path} x {default, -aggressive}; the output is cut into blocks and compared with the buckets/goroutines the library yields for the same bytes: header pieces, one line per frame, the file:line and function columns at the same rune offsets on every frame line of the output, '(...)' after elided stacks; " +
 		"-force-color output minus ESC[..m must equal the -no-color output; for regexps drawn from the headers the -f and -m outputs must split the unfiltered blocks exactly in two, order preserved. distinct by hash(input, flags); non-trivial = >= 2 blocks")
 	r.Assume("bucket membership and order are taken from the library (C04/C05/C13 decide those); Args.String() is the textual form of arguments")
+	// real crash output (dump part only: pp passes the text before it through unchanged, C02 decides that)
+	names := realCrashNames()
+	r.Set("real_crash_scenarios", len(names))
+	core.Parallel(len(names), workers(), func(k int) {
+		out := realCrashes()[names[k]]
+		i := bytes.Index(out, []byte("\ngoroutine "))
+		if j := bytes.Index(out, []byte("==================\nWARNING: DATA RACE")); j >= 0 {
+			i = j - 1
+		}
+		if i < 0 {
+			return
+		}
+		raw := out[i+1:]
+		if e := bytes.Index(raw, []byte("\nexit status")); e >= 0 {
+			raw = raw[:e+1]
+		}
+		for v := 0; v < 3; v++ {
+			c := &c16Case{Raw: raw, Path: []string{"", "-full-path", "-rel-path"}[v], Aggr: k%2 == 0, Filter: []string{"", "running", "chan|select"}[v]}
+			c16Eval(r, c)
+		}
+		r.Distinct(core.Hash64(raw))
+	})
 	n := r.N(2500, 10000)
 	core.Parallel(n, workers(), func(i int) {
 		c := genC16(r, i)
